@@ -23,6 +23,11 @@ CONSTANTS
   PreCheck = @PRECHECK@
   ReentReg = @REENTREG@
   UnregShape = "@UNREGSHAPE@"
+  WithStart = @WITHSTART@
+  StartEnder = "@STARTENDER@"
+  RTShape = "@RTSHAPE@"
+  ZeroMut <- MCZeroMut
+  ZShape = "@ZSHAPE@"
   ExecTracer = @EXECTRACER@
   Shape = "@SHAPE@"
   AllowKnown = TRUE
